@@ -11,6 +11,7 @@ interpreter's; under a fired fault the comparison is cut after the first
 fired fault (what happens after a raising condition is not stated).
 """
 import hashlib
+import re
 
 from . import core
 from . import env as E
@@ -22,7 +23,8 @@ LEVEL = 'exploration'
 STEP_UNIT = 'call-back invocations (conditions, branch markers, references)'
 CASE_TIMEOUT = 300
 TIERS = {'quick': (24000, 170), 'thorough': (1200000, 2400)}
-PROBES = ['resumed_after_caught_fault', 'chain_len_ge3', 'first_true_not_first', 'else_taken',
+PROBES = ['attribute_defined_by_side_effect_then_retested',
+          'resumed_after_caught_fault', 'chain_len_ge3', 'first_true_not_first', 'else_taken',
           'nothing_rendered', 'cached_value_reused_in_body',
           'reuse_at_depth_ge2', 'reuse_inside_loop', 'reuse_in_sub_template',
           'reuse_as_inner_condition', 'shadowed_by_let', 'shadowed_by_with',
@@ -77,6 +79,7 @@ class Gen:
         for i in range(r.randint(0, 3)):
             self.free.append(self.newsite('D%d' % (i + 1), True))
         self.calls = 0
+        self.nw = 0
         self.enclosing = []  # named sites cached by an enclosing conditional
 
     def newsite(self, s, allow_boolobj):
@@ -114,7 +117,7 @@ class Gen:
         kinds = ['text', 'ref', 'ref', 'ref', 'call']
         if depth < self.maxdepth and self.nodes < 40:
             kinds += ['if', 'if', 'if', 'unless', 'wrap', 'shadow', 'sub',
-                      'try']
+                      'try', 'wobj']
         kinds = [k for k in kinds if k in self.swarm or k in ('text', 'ref')]
         return getattr(self, 'n_' + r.choice(kinds))(depth)
 
@@ -228,6 +231,41 @@ class Gen:
                                      "_.namespace(%s='%s')" % (s, val)},
                 'binds': {s: val}, 'body': b, 'shadow': s}
 
+    def n_wobj(self, depth):
+        """an object namespace one of whose attributes only comes into
+        being through a side effect of a later call: undefined (false) when
+        tested first, defined when tested again"""
+        r = self.r
+        self.nw += 1
+        w, attr = 'W%d' % self.nw, 'UA%d' % self.nw
+        site = '%s.%s' % (w, attr)
+        self.script[w] = {'obj': {}, 'sites': [attr]}
+        self.script[site] = {'when_defined': r.choice(['yes', 1, 'val'])}
+        self.calls += 1
+        k = 'K%d' % self.calls
+        self.script[k] = {'tok': k, 'defines': [site]}
+
+        def test():
+            x = r.random()
+            c = {'site': attr, 'how': 'name'}
+            if x < 0.5:
+                return {'k': 'if', 'conds': [{'c': c, 'body': self.body(
+                    depth + 2)}], 'else': self.body(depth + 2)
+                    if r.random() < 0.6 else None}
+            if x < 0.8:
+                return {'k': 'unless', 'c': c, 'body': self.body(depth + 2)}
+            return {'k': 'if', 'conds': [
+                {'c': self.cond(), 'body': self.body(depth + 2)},
+                {'c': c, 'body': self.body(depth + 2)}], 'else': None}
+        b = self.body(depth + 1)
+        nodes = [test() for _ in range(r.choice([1, 1, 2]))]
+        nodes.append({'k': 'call', 'c': {'site': k, 'how': r.choice(
+            ['name', 'expr', 'call'])}})
+        nodes += [test() for _ in range(r.choice([1, 1, 2]))]
+        b['n'] = b['n'][:1] + nodes + b['n'][1:]
+        return {'k': 'with', 'src': {'site': w, 'how': 'name'},
+                'objattrs': [attr], 'body': b}
+
     def n_try(self, depth):
         b = self.body(depth + 1, minn=1)
         if not any(n['k'] in ('if', 'unless') for n in b['n']):
@@ -256,7 +294,7 @@ class Gen:
         return {'k': 'sub', 'name': name}
 
 
-ALL_KINDS = ['call', 'if', 'unless', 'wrap', 'shadow', 'sub', 'try']
+ALL_KINDS = ['call', 'if', 'unless', 'wrap', 'shadow', 'sub', 'try', 'wobj']
 
 
 def gen_case(seed, tier):
@@ -325,7 +363,7 @@ class Model9(M.Model):
 
     def lookup(self, name):
         for f in reversed(self.frames):
-            if name in f:
+            if isinstance(f, dict) and name in f:
                 if any(f is c for c in self.caches):
                     self.hits.add('cached_value_reused_in_body')
                     if len(self.frames) - 1 - [
@@ -412,6 +450,12 @@ class Model9(M.Model):
         finally:
             self.loop -= 1
 
+    def invoke(self, site):
+        v = M.Model.invoke(self, site)
+        if _ATTR_SITE.match(site) and v is not E.UNDEF:
+            self.hits.add('attribute_defined_by_side_effect_then_retested')
+        return v
+
     def n_let(self, n):
         if n.get('shadow'):
             self.hits.add('shadowed_by_let')
@@ -444,8 +488,14 @@ def run_model(case, prep, plan, shift):
     return env, m, outcome
 
 
+_ATTR_SITE = re.compile(r'^W\d+\.')
+
+
 def hist(env):
-    return [[e.site, e.ordinal, (e.fired or {}).get('kind')] for e in env.log]
+    """attribute reads on object namespaces are not namespace-callable
+    invocations: how often the library probes them is not compared"""
+    return [[e.site, e.ordinal, (e.fired or {}).get('kind')] for e in env.log
+            if not _ATTR_SITE.match(e.site)]
 
 
 def first_fired(h):
